@@ -136,7 +136,7 @@ def r1_r2_init(repo, rep):
   okdf = re.fullmatch(r'(.+)\.loc\[list\((.+)\.index\)\]', df_txt)
   rep.check(okdf is not None and okdf.group(2) == means and (okdf.group(1) == table), 'R1/ingestion', 'rows of df are reordered by decreasing mean', f.qualname,
             'self.df = ' + df_txt[:160], 'self.df is `%s`: not the zero-filled pivot table with rows in the order of the sorted means' % df_txt[:120], f.loc(sdf.ast))
-  gtxt = full(sgeos, sgeos.ast.value)
+  gtxt = re.sub(r'^set\(list\((.*)\)\)$', r'set(\1)', full(sgeos, sgeos.ast.value))      # set(list(x)) is set(x)
   rep.check(gtxt == 'set(%s.index)' % means, 'R1/ingestion', 'geos_in_data = IDs of the table rows', f.qualname, gtxt[:120],
             'geos_in_data is `%s`' % gtxt[:100], f.loc(sgeos.ast), nontrivial=False)
   # R2 reconciliation, on the set algebra: atoms c, t, x (the eligibility row of a generic geo) and D (the geo is in the data)
